@@ -22,9 +22,37 @@ func init() {
 	engines["C18"] = &engine{N: tierN(0, 0), Whole: c18Whole}
 }
 
-const c18NumOperands = 32
+const c18NumOperands = 35
 
-var c18OpNames = []string{"Add", "Sub", "Mul", "Sqr", "Quo", "FMA", "Sqrt", "Cmp", "Text", "Format", "Float64", "Int", "Rat", "Gob", "MarshalText", "Set", "Float"}
+var c18OpNames = []string{"Add", "Sub", "Mul", "Sqr", "Quo", "FMA", "Sqrt", "Cmp", "Text", "Format", "Float64", "Int", "Rat", "Gob", "MarshalText", "Set", "Float",
+	// operations that read shared operands or constant arguments and write only to the goroutine's own receiver: whatever
+	// state the library keeps outside its arguments (tables, scratch, readers) is shared between the goroutines
+	"Parse", "ParseBinary", "GobRoundTrip", "SetRat", "SetInt", "SetFloat64", "SetFloat", "FormatWidth", "IntLong"}
+
+// constant arguments of the writer-side jobs (built once per process, never modified)
+var c18Args struct {
+	lits, bins []string
+	rats       []*big.Rat
+	ints       []*big.Int
+	f64s       []float64
+	bfs        []*big.Float
+	longs      []*decimal.Decimal // integers far longer than their mantissa: Int multiplies by a power of ten
+}
+
+func c18MakeArgs(r *hx.RNG) {
+	a := &c18Args
+	for i := 0; i < 24; i++ {
+		d := string(r.Digits(r.Range(1, 200)))
+		a.lits = append(a.lits, d[:1]+"."+d[1:]+fmt.Sprintf("e%d", r.Range(-400, 400)))
+		a.bins = append(a.bins, []string{"0x1p-100", "3p-300", "0x1p-1074", "0b1.01p+200", "0x1.8p+1000", "0o17.4p-77", "7p+64", "0x.8p-65", "12345p-200", "0x1p+4000"}[i%10])
+		a.rats = append(a.rats, new(big.Rat).SetFrac(hx.CoefOf(r.Digits(r.Range(1, 80))), hx.CoefOf(r.Digits(r.Range(1, 80)))))
+		a.ints = append(a.ints, hx.CoefOf(r.Digits(r.Range(1, 400))))
+		a.f64s = append(a.f64s, []float64{1.5, 1e300, 5e-324, 0.1, 123456789.125, 2.2250738585072014e-308, 1e22, -7.25e-200}[i%8])
+		bf := new(big.Float).SetPrec(uint(r.Range(10, 400))).SetInt(hx.CoefOf(r.Digits(r.Range(1, 60))))
+		a.bfs = append(a.bfs, bf.SetMantExp(bf, r.Range(-2000, 2000)))
+		a.longs = append(a.longs, hx.Mk(r.Finite(r.Range(1, 40), int64([]int{300, 5000, 20000, 77, 1234, 9000}[i%6])), 0, 0))
+	}
+}
 
 type c18Job struct {
 	op         int
@@ -96,6 +124,35 @@ func c18Exec(j c18Job, ops []*decimal.Decimal) string {
 			z.Sqrt(x)
 		case "Set":
 			z.Set(x)
+		case "Parse":
+			if _, ok := z.SetString(c18Args.lits[j.u%len(c18Args.lits)]); !ok {
+				out = "rejected"
+			}
+		case "ParseBinary":
+			if _, _, err := z.Parse(c18Args.bins[j.u%len(c18Args.bins)], 0); err != nil {
+				out = "rejected: " + err.Error()
+			}
+		case "GobRoundTrip":
+			b, err := x.GobEncode()
+			if err == nil {
+				err = z.GobDecode(b)
+			}
+			if err != nil {
+				out = "error: " + err.Error()
+			}
+		case "SetRat":
+			z.SetRat(c18Args.rats[j.u%len(c18Args.rats)])
+		case "SetInt":
+			z.SetInt(c18Args.ints[j.u%len(c18Args.ints)])
+		case "SetFloat64":
+			z.SetFloat64(c18Args.f64s[j.u%len(c18Args.f64s)])
+		case "SetFloat":
+			z.SetFloat(c18Args.bfs[j.u%len(c18Args.bfs)])
+		case "FormatWidth":
+			out = fmt.Sprintf("%030.5f|%-30.3e|%+40.10g|%0200.2e|% 150.1f|", x, y, x, y, y)
+		case "IntLong":
+			i, a := c18Args.longs[j.u%len(c18Args.longs)].Int(nil)
+			out = fmt.Sprint(i.BitLen(), new(big.Int).Rem(i, big.NewInt(1000000007)), a)
 		case "Cmp":
 			out = fmt.Sprint(x.Cmp(y), y.Cmp(x), x.Sign(), x.IsInt(), x.MinPrec())
 		case "Text":
@@ -155,6 +212,11 @@ func c18Whole(c *hx.Ctx) {
 	vals = append(vals,
 		oracle.Val{Form: oracle.Finite, Coef: new(big.Int).Mul(hx.CoefOf(r.Digits(30)), oracle.Pow10(57)), Exp: -60},
 		oracle.Val{Form: oracle.Finite, Coef: big.NewInt(1), Exp: 40})
+	// values in the top and bottom decade of the exponent range (conversions to integers, rationals and the %f layout
+	// of these would need 2^31 digits: the job table keeps them away from such operands)
+	extremeFrom := len(vals)
+	vals = append(vals, r.Finite(40, oracle.MaxExp), r.Finite(25, oracle.MinExp), r.Finite(60, oracle.MaxExp-3))
+	extremeTo := len(vals)
 	// zeros and an infinity in variables that held finite values before (leftover exponent and mantissa fields)
 	vals = append(vals, oracle.Val{Form: oracle.Zero}, oracle.Val{Form: oracle.Zero, Neg: true}, oracle.Val{Form: oracle.Inf, Neg: true})
 	ops := make([]*decimal.Decimal, len(vals))
@@ -174,8 +236,9 @@ func c18Whole(c *hx.Ctx) {
 		}
 		ops[i] = hx.Mk(v, digitsOf(v)+uint(r.Intn(20)), r.Mode())
 	}
+	c18MakeArgs(r)
 	// job table
-	njobs := 400
+	njobs := 520
 	jobs := make([]c18Job, njobs)
 	for i := range jobs {
 		j := c18Job{op: r.Intn(len(c18OpNames)), x: r.Intn(len(ops)), y: r.Intn(len(ops)), u: r.Intn(len(ops)), prec: r.Range(1, 120), mode: r.Mode()}
@@ -189,6 +252,18 @@ func c18Whole(c *hx.Ctx) {
 			}
 			if j.prec > 400 {
 				j.prec = r.Range(1, 400)
+			}
+		}
+		switch name {
+		case "Int", "Rat", "FormatWidth", "Add", "Sub", "FMA": // (sums align the operands digit by digit: a 2^31-digit gap)
+			for j.x >= extremeFrom && j.x < extremeTo {
+				j.x = r.Intn(len(ops))
+			}
+			for j.y >= extremeFrom && j.y < extremeTo {
+				j.y = r.Intn(len(ops))
+			}
+			for j.u >= extremeFrom && j.u < extremeTo {
+				j.u = r.Intn(len(ops))
 			}
 		}
 		if name == "Quo" && r.Bool() { // long divisors: recursive division with pooled temporaries
